@@ -16,7 +16,7 @@ EXTRA = {"C03-A":["C10"], "C10-B":["C03"], "C15-A":["C02","C16","C01"], "C15-B":
          "C03-G":["C18"], "C13-H":["C18"], "C18-G":["C03"], "C01-H":["C07","C04"], "C01-G":["C03","C10"], "C06-H":["C05"], "C08-G":["C05","C06"], "C10-G":["C12"], "C16-G":["C01","C04","C02"], "C02-G":["C04","C01"], "C02-H":["C04","C01","C17"], "C09-H":["C11"], "C11-G":["C09"], "C15-G":["C18"], "C15-H":["C10"], "C19-G":["C09"], "C14-G":["C13"], "C05-G":["C06"], "C07-G":["C05"], "C04-H":["C02","C01"], "C06-H":["C08"], "C08-G":["C06"]}
 only = sys.argv[1:]
 res = {}
-for d in sorted(glob.glob("/verif/seeded/C*-[A-I]")):
+for d in sorted(glob.glob("/verif/seeded/C*-[A-K]")):
     sid = os.path.basename(d)
     if only and sid not in only: continue
     if os.path.exists("/tmp/seed_matrix.json") and sid in json.load(open("/tmp/seed_matrix.json")): continue
